@@ -155,4 +155,20 @@ theorem tm_pn_vertex_outside_local (acos : K → K) (hac : ∀ x, 0 ≤ acos x) 
     linarith
   linarith
 
+/-- non-vacuity of the hypotheses of `tm_pn_vertex_outside_local` / `_inside_local`: one triangle `(0,0,0),(1,0,0),(0,1,0)`
+(normal `(0,0,1)`, `sqrt 1 = 1`), constant `acos = 1`, vertex 0, query direction `±(0,0,1)` -/
+example :
+    letI := fieldNum ℚ (fun x => if x = 1 then 1 else 0)
+    let m : Mesh ℚ := ⟨#[⟨0, 0, 0⟩, ⟨1, 0, 0⟩, ⟨0, 1, 0⟩], #[(0, 1, 2)]⟩
+    (computePseudoNormals (fun _ => (1 : ℚ)) m).isSome = true ∧
+    0 < dotK (⟨0, 0, 1⟩ : V3 ℚ) (pnContrib (fun x => if x = 1 then 1 else 0) (fun _ => (1 : ℚ)) m 0 0) := by
+  constructor
+  · simp [computePseudoNormals, pnLoop, pnStep, Mesh.tri?, triNormal?, triScaledNormal, triAngles, V3.angle, List.range_succ,
+      V3.cross, V3.sub, V3.dot, V3.normSq, V3.norm, V3.sdiv, V3.smul, V3.add, V3.zero, neq, nclamp, lit, Num.sqrt, Num.ofRat,
+      bind, Option.bind, edgeAdd, sortedPair]
+    norm_num
+  · simp [pnContrib, Mesh.tri?, triNormal?, triScaledNormal, triAngles, V3.angle, vaddK, dotK,
+      V3.cross, V3.sub, V3.dot, V3.normSq, V3.norm, V3.sdiv, V3.smul, neq, nclamp, lit, Num.sqrt, Num.ofRat, bind, Option.bind]
+    norm_num
+
 end C05
